@@ -1,0 +1,45 @@
+//go:build verif
+
+package cmd
+
+// Contracts for govc (see /verif/DESIGN.md).  Comment-only file.
+
+//@ import timeutil github.com/AdguardTeam/golibs/timeutil
+//@ import datasize github.com/c2h5oh/datasize
+//@ import ratelimit github.com/AdguardTeam/AdGuardDNS/internal/dnsserver/ratelimit
+
+// ---------------------------------------------------------------------------
+// C20: values documented as positive are rejected when zero or negative.
+
+//@ func newNotPositiveError
+//@   modifies nothing
+//@   ensures err != nil
+//@ func newNegativeError
+//@   modifies nothing
+//@   ensures err != nil
+
+//@ func validatePositive[uint]
+//@   property C20
+//@   ensures rejects-non-positive: err == nil ==> v > 0
+//@ func validatePositive[int]
+//@   property C20
+//@   ensures rejects-non-positive: err == nil ==> v > 0
+//@ func validatePositive[github.com/c2h5oh/datasize.ByteSize]
+//@   property C20
+//@   ensures rejects-non-positive: err == nil ==> v > 0
+//@ func validatePositive[github.com/AdguardTeam/golibs/timeutil.Duration]
+//@   property C20
+//@   ensures rejects-non-positive: err == nil ==> v.Duration > 0
+
+//@ func isPositive[uint]
+//@   property C20
+//@   ensures ok == (v > 0)
+//@ func isPositive[int]
+//@   property C20
+//@   ensures ok == (v > 0)
+//@ func isPositive[github.com/c2h5oh/datasize.ByteSize]
+//@   property C20
+//@   ensures ok == (v > 0)
+//@ func isPositive[github.com/AdguardTeam/golibs/timeutil.Duration]
+//@   property C20
+//@   ensures ok == (v.Duration > 0)
